@@ -7,7 +7,8 @@ CONSTANTS
   MaxDepth = 3
   MaxItems = 6
   MaxSteps = 24
-  FullSetup = FALSE
+  MinSteps = 10
+  Pick <- PickOne
   Variants = {"same", "flags", "order", "members", "nested"}
   Dev = {}
   FieldOptions <- FullOptions
